@@ -133,6 +133,53 @@ theorem loads_only_exact (fast : Bool) (c c' : SigCollection) (n : Nat)
   injection h with h
   exact h.symm
 
+/-! ### 5b. Death by an exception that unwinds the writer (Ctrl-C, SIGTERM handler, failing source)
+
+The `with` block closes the file on the way out, so — unlike a kill — the calls made so far *are*
+finalised.  Since the repair of finding C19-F1 `dump_signatures_hdf5` removes that file before
+re-raising (`unwindImage`); the statements are then the same as for a kill. -/
+
+/-- An interrupt before the last call completed leaves nothing that loads. -/
+theorem unwind_never_loads (fast : Bool) (nsigs : Nat) (full : SigStore) (n : Nat)
+    (hn : n < (writerTrace fast nsigs).length) (c : SigCollection) :
+    loadFile (unwindImage (writerTrace fast nsigs) full n) ≠ .loaded c := by
+  unfold unwindImage
+  rw [if_neg (by omega)]
+  simp [loadFile]
+
+/-- … and what it leaves is refused with the dedicated error (there is no file). -/
+theorem unwind_outcome (fast : Bool) (nsigs : Nat) (full : SigStore) (n : Nat)
+    (hn : n < (writerTrace fast nsigs).length) :
+    loadFile (unwindImage (writerTrace fast nsigs) full n) = .sigFileError := by
+  unfold unwindImage
+  rw [if_neg (by omega)]
+  rfl
+
+/-- A file that loads after an interrupted write of `c` holds `c` — never something else. -/
+theorem unwind_loads_only_exact (fast : Bool) (c c' : SigCollection) (n : Nat)
+    (h : loadFile (unwindImage (writerTrace fast c.sigs.length) (writeSigs fast c) n) = .loaded c') :
+    c' = c := by
+  unfold unwindImage at h
+  split at h
+  · have : loadFile (.hdf5 (writeSigs fast c)) = .loaded c := C12.read_write fast c
+    rw [this] at h
+    injection h with h
+    exact h.symm
+  · simp [loadFile] at h
+
+/-- Kill and interrupt give the same verdict at every point. -/
+theorem unwind_eq_crash_verdict (fast : Bool) (c : SigCollection) (n : Nat) (c' : SigCollection) :
+    loadFile (unwindImage (writerTrace fast c.sigs.length) (writeSigs fast c) n) = .loaded c' ↔
+    loadFile (crashImage (writerTrace fast c.sigs.length) (writeSigs fast c) n) = .loaded c' := by
+  by_cases hn : (writerTrace fast c.sigs.length).length ≤ n
+  · rw [crashImage_complete fast _ _ n hn]
+    unfold unwindImage
+    rw [if_pos hn]
+  · have hlt : n < (writerTrace fast c.sigs.length).length := by omega
+    constructor
+    · intro h; exact absurd h (unwind_never_loads fast _ _ n hlt c')
+    · intro h; exact absurd h (crash_never_loads fast _ _ n hlt c')
+
 /-! ### 6. Contrast: a hypothetical writer that flushes early
 
 In this conservative model a trace with an early `flush` still maps to `.unopenable` until `close`:
@@ -183,6 +230,21 @@ example : loadFile (crashImage (writerTrace true 2) (writeSigs true c2) 0) = .si
 -- completed writes
 example : loadFile (crashImage (writerTrace true 2) (writeSigs true c2) 14) = .loaded c2 := by decide
 example : loadFile (crashImage (writerTrace false 2) (writeSigs false c2) 18) = .loaded c2 := by decide
+
+-- interrupted (exception) writes, after the repair: nothing loads until the last call is done
+example : loadFile (unwindImage (writerTrace false 2) (writeSigs false c2) 16) = .sigFileError := by decide
+example : loadFile (unwindImage (writerTrace false 2) (writeSigs false c2) 18) = .loaded c2 := by decide
+
+/-- Finding C19-F1 (pre-repair behaviour, replayed on the real code by the correspondence run before the
+repair): the file that `close` finalised when the per-signature writer was interrupted after one of
+two signatures loads — as a collection that is not the one being written (zero-filled tail). -/
+private def c3 : SigCollection :=
+  { k := 11, pre := [0, 3, 2], metaAttrs := [some "id", none, none, none, none, none],
+    ids := ["a", "b"], sigs := [[3, 9, 20], [5, 7]], dtypeBytes := 8 }
+
+example : ∃ c', loadFile (.hdf5 (interruptedStoreSlow c3 1)) = .loaded c' ∧ c' ≠ c3 ∧
+    c'.sigs = [[3, 9, 20], [0, 0]] := by
+  refine ⟨{ c3 with sigs := [[3, 9, 20], [0, 0]] }, ?_, ?_, ?_⟩ <;> decide
 
 end Examples
 
